@@ -1,6 +1,6 @@
 from typing import List, Union
 
-from rope.base import ast, exceptions, pynames, pynamesdef, utils
+from rope.base import ast, exceptions, fscommands, pynames, pynamesdef, utils
 from rope.refactor.importutils import actions, importinfo
 
 
@@ -223,7 +223,18 @@ class ModuleImports:
     def _get_new_import_lineno(self):
         if self.imports:
             return self.imports[-1].end_line
-        return 1
+        # never above the interpreter line or the PEP 263 coding line
+        lines = self.pymodule.lines
+        lineno = 1
+        if lines.length() >= 1 and lines.get_line(1).startswith("#!"):
+            lineno = 2
+        for header_line in (1, 2):
+            if (
+                header_line <= lines.length()
+                and fscommands.read_str_coding(lines.get_line(header_line)) is not None
+            ):
+                lineno = header_line + 1
+        return lineno
 
     def filter_names(self, can_select):
         visitor = actions.RemovingVisitor(
